@@ -506,7 +506,23 @@ class Prov:
         pn = pinned_names().get(fn.path)
         # names are alpha-renamed to those of the reviewed commit, position by position
         self.pin_args = pn["args"] if pn and len(pn["args"]) == fn.arg_count else None
-        self.pin_upvars = pn["upvars"] if pn and fn.kind == "Closure" else None
+        # captures are renamed position by position only while the number of captures is unchanged; if a capture
+        # was added or removed the positions no longer correspond and the current names are kept
+        cur = getattr(fn, "upvar_names", None)
+        self.pin_upvars = None
+        if pn and fn.kind == "Closure" and cur is not None and isinstance(pn.get("upvars"), list):
+            # a capture keeps its own name when that name is one of the reviewed commit's (so re-ordering, adding or
+            # removing captures changes nothing); a *new* name is taken to be a rename of the reviewed capture that
+            # disappeared, when that is unambiguous (same count; same position, or the only vacancy)
+            pinned = pn["upvars"]
+            vacant = [n for n in pinned if n not in cur]
+            fresh = [i for i, n in enumerate(cur) if n not in pinned]
+            self.pin_upvars = {}
+            for i in fresh:
+                if len(pinned) == len(cur) and pinned[i] in vacant:
+                    self.pin_upvars[str(i)] = pinned[i]
+                elif len(pinned) == len(cur) and len(vacant) == 1 and len(fresh) == 1:
+                    self.pin_upvars[str(i)] = vacant[0]
 
     def of_local(self, l, depth=0, stack=()):
         if l in self._memo:
@@ -718,6 +734,14 @@ class Program:
                 self.consts[strip_generics(k["path"])] = k
             for t in data["traits"]:
                 self.traits[strip_generics(t["path"])] = t
+        # capture names of every closure, in capture order, from the aggregate that creates it
+        for fn in list(self.fns.values()):
+            for b in fn.blocks:
+                for st in b["stmts"]:
+                    if st["k"] == "assign" and st["rv"].get("k") == "aggr" and st["rv"].get("agg") == "closure":
+                        c = self.fns.get(strip_generics(st["rv"].get("closure", "")))
+                        if c is not None:
+                            c.upvar_names = list(st["rv"].get("fields") or [])
         self._cg = None
         self._prov = {}
         self._raw_index = defaultdict(list)
